@@ -1,6 +1,7 @@
 /- Helper lemmas for property C18 (formatted output): bounded writer, growing buffer, digit strings,
    the flag fold of the parser, and the comparison of `__gmp_doprnt_integer` with the C99 layout. -/
 import Mpir.Model.Printf
+import Mpir.Model.Scanf
 import Mathlib.Tactic.Ring
 import Mathlib.Tactic.Linarith
 import Mathlib.Tactic.IntervalCases
@@ -879,3 +880,64 @@ theorem run_forward (A : List Arg) : ∀ (cs : List Char) (mode : Mode) (st : DS
 
 
 end Mpir.Printf
+
+namespace Mpir.Scanf
+open Mpir.Printf
+
+/-! ### reading back what was printed -/
+
+theorem digitValue_digitChar (d : Nat) (h : d < 10) : digitValue (digitChar false d) = d := by
+  interval_cases d <;> decide
+
+theorem natDigits10_value : ∀ n : Nat,
+    (natDigits 10 false n).foldl (fun a c => a * 10 + digitValue c) 0 = n ∧
+    (∀ c ∈ natDigits 10 false n, digitValue c < 10) := by
+  intro n
+  induction n using Nat.strong_induction_on with
+  | _ n ih =>
+    rw [natDigits]
+    split
+    · rename_i h
+      have hn : n < 10 := by rcases h with h | h <;> omega
+      simp [digitValue_digitChar n hn, hn]
+    · rename_i h
+      have hn : ¬ n < 10 := fun h' => h (Or.inl h')
+      obtain ⟨ih1, ih2⟩ := ih (n / 10) (Nat.div_lt_self (by omega) (by omega))
+      have hm : n % 10 < 10 := Nat.mod_lt _ (by omega)
+      refine ⟨?_, ?_⟩
+      · rw [List.foldl_append, ih1]
+        simp [digitValue_digitChar _ hm]; omega
+      · intro c hc
+        rcases List.mem_append.mp hc with h1 | h1
+        · exact ih2 c h1
+        · simp only [List.mem_singleton] at h1; rw [h1, digitValue_digitChar _ hm]; exact hm
+
+
+/-- mpz_set_str reads back what mpz_get_str wrote, base 10 -/
+theorem setStr_getStr10 (v : Int) : setStr (mpzGetStr 10 v) 10 = some v := by
+  obtain ⟨hval, hall⟩ := natDigits10_value v.natAbs
+  have hmem : ∀ c ∈ natDigits 10 false v.natAbs, c ≠ '/' ∧ c ≠ '-' := fun c hc =>
+    digitTab_ne false c (natDigits_mem 10 false (by decide) (by decide) _ c hc)
+  unfold mpzGetStr
+  simp only [show (10 : Int).natAbs = 10 from rfl, show decide ((10 : Int) < 0) = false from rfl]
+  generalize hds : natDigits 10 false v.natAbs = ds at *
+  have hne : ds ≠ [] := by rw [← hds]; exact natDigits_ne_nil _ _ _
+  cases ds with
+  | nil => exact absurd rfl hne
+  | cons a t =>
+    have ha : a ≠ '-' := (hmem a List.mem_cons_self).2
+    have hda : digitValue a < 10 := hall a List.mem_cons_self
+    have hallb : (a :: t).all (fun c => decide (digitValue c < 10)) = true := by
+      simp only [List.all_eq_true, decide_eq_true_eq]; exact hall
+    by_cases hv : v < 0
+    · simp only [hv, if_true, setStr, List.cons_append, List.nil_append, List.head?_cons, decide_true, List.tail_cons,
+        show ¬ (10 : Nat) = 0 by decide, if_false]
+      simp only [show ¬ digitValue a ≥ 10 by omega, if_false, hallb, if_true, hval]
+      congr 1; omega
+    · simp only [hv, if_false, setStr, List.nil_append, List.head?_cons, Option.some.injEq, ha, decide_false,
+        Bool.false_eq_true, show ¬ (10 : Nat) = 0 by decide]
+      simp only [show ¬ digitValue a ≥ 10 by omega, if_false, hallb, if_true, hval]
+      congr 1; omega
+
+
+end Mpir.Scanf
